@@ -352,6 +352,7 @@ class Program:
         self.closures: dict[int, tuple] = {}  # id -> (FuncInfo, env snapshot, conds)
         self.loopvar_paths: dict = {}
         self._variant = 0
+        self.variant_closures: set[int] = set()  # closures created while inlining a call (bound frames)
         self.loops: dict[str, Loop] = {}
         self.origin: dict = {}  # term -> (module, lineno)
         self._frames: dict[str, Frame] = {}
@@ -517,6 +518,7 @@ class Program:
         if bind is None:
             self._closure_frames[cid] = fr
         ev = _Exec(self, fr, enclosing=snapshot)
+        ev.from_variant = cid in self.variant_closures or bind is not None
         ev.bind_params(info.node, bind)
         ev.block(info.node.body)
         ev.finish()
@@ -1065,6 +1067,8 @@ class _Exec:
             # the closure can see itself and names defined later only through the
             # snapshot; that is enough for this code base
             self.p.closures[cid] = (info, snapshot, tuple(self.conds))
+            if self.variant or (self.enclosing is not None and getattr(self, "from_variant", False)):
+                self.p.variant_closures.add(cid)
             t = ("closure", q or s.name, cid)
             self.fr.closures.setdefault(s.name, []).append(cid)
         self.note(t, s)
